@@ -221,8 +221,11 @@ theorem C09_roundtrip (fmt : Fmt) (c0 : Option (List ChnaEntry)) (a0 b0 : Option
     have hpl48 : (idBW64 ++ (ffff ++ (idWAVE ++ ds64Chunk R (dataOf ops).length))).length = 48 := by
       simp [idBW64, ffff, idWAVE, ds64Chunk, idDs64, le_length]
     rw [hpl48] at hw
-    have hfin := finishRead_written (ff := idBW64) (ds := some ⟨R, (dataOf ops).length, []⟩) (tail := []) hfmt hc0 hcF
-      (hf.trans (by simp))
+    have hf' : f = (idBW64 ++ (ffff ++ (idWAVE ++ ds64Chunk R (dataOf ops).length))) ++
+        (encAll ([] ++ bodyC fmt c0 a0 b0 4294967295 (dataOf ops) (pad (dataOf ops).length) (pendChna c0 ops) (pendAxml a0 ops)
+          (pendBext b0 ops)) ++ []) := by
+      rw [List.append_nil]; exact hf
+    have hfin := finishRead_written (ff := idBW64) (ds := some ⟨R, (dataOf ops).length, []⟩) hfmt hc0 hcF hf'
       (by simp) (by intro d hd; cases hd; rfl) hframes
     rw [hpl48] at hfin
     simp only [readFile, hhead, hw, hfin]
@@ -257,7 +260,11 @@ theorem C09_roundtrip (fmt : Fmt) (c0 : Option (List ChnaEntry)) (a0 b0 : Option
     have hw := walk_chunks _ _ hok _ f (f.length + 1) [] [] hf (fuel_ok hf (fun c hc => (hok c hc).idLen))
     have hpl12 : (idRIFF ++ (le 4 R ++ idWAVE)).length = 12 := by simp [idRIFF, idWAVE, le_length]
     rw [hpl12] at hw
-    have hfin := finishRead_written (ff := idRIFF) (ds := none) (tail := []) hfmt hc0 hcF (hf.trans (by simp))
+    have hf' : f = (idRIFF ++ (le 4 R ++ idWAVE)) ++
+        (encAll ([junkC] ++ bodyC fmt c0 a0 b0 (dataOf ops).length (dataOf ops) (pad (dataOf ops).length) (pendChna c0 ops)
+          (pendAxml a0 ops) (pendBext b0 ops)) ++ []) := by
+      rw [List.append_nil]; exact hf
+    have hfin := finishRead_written (ff := idRIFF) (ds := none) hfmt hc0 hcF hf'
       (by intro x hx; rw [List.mem_singleton.1 hx]; rfl) (by intro d hd; cases hd) hframes
     rw [hpl12] at hfin
     simp only [readFile, hhead, hw, hfin]
